@@ -33,7 +33,11 @@ package mcp
 //@   nopanic
 //@   ensures @none-iff-disjoint result == "" <==> (forall j int :: 0 <= j && j < 5 ==> !has(supported, supportedProtocolVersions[j]))
 //@   ensures @mutual result != "" ==> sdkSupports(result) && has(supported, result)
-//@   ensures @newest forall j int :: 0 <= j && j < 5 && has(supported, supportedProtocolVersions[j]) ==> supportedProtocolVersions[j] <= result
+//@   ensures @newest-1 has(supported, protocolVersion20260728) ==> result == protocolVersion20260728
+//@   ensures @newest-2 !has(supported, protocolVersion20260728) && has(supported, protocolVersion20251125) ==> result == protocolVersion20251125
+//@   ensures @newest-3 !has(supported, protocolVersion20260728) && !has(supported, protocolVersion20251125) && has(supported, protocolVersion20250618) ==> result == protocolVersion20250618
+//@   ensures @newest-4 !has(supported, protocolVersion20260728) && !has(supported, protocolVersion20251125) && !has(supported, protocolVersion20250618)
+//@        && has(supported, protocolVersion20250326) ==> result == protocolVersion20250326
 //@   loop 1: invariant forall j int :: 0 <= j && j < $idx ==> !has(supported, supportedProtocolVersions[j])
 
 // The deprecated HTTP+SSE transport never serves 2026-07-28 or later.
@@ -147,3 +151,35 @@ package mcp
 //@   ensures @legacy-has-no-params result.1 == nil && !result.0.usesNewProtocol ==> result.0.initializeParams == nil
 //@   ensures @errors-are-invalid-params result.1 != nil ==> result.0 == nil && typeIs(result.1, *jsonrpc.Error)
 //@        && result.1.(*jsonrpc.Error).Code == jsonrpc.CodeInvalidParams
+
+// ---------------------------------------------------------------------------------------------
+// C20: in-memory event store
+// ---------------------------------------------------------------------------------------------
+// A stream's payloads are addressed by absolute index: the payload with index k is data[k-first]. 'next' is the
+// index the next appended payload will get.
+
+//@ fun nextIdx(dl *dataList) int := dl.first + len(dl.data)
+//@ pred holds(dl *dataList, k int) := dl.first <= k && k < dl.first + len(dl.data)
+//@ fun item(dl *dataList, k int) []byte := dl.data[k - dl.first]
+// index arithmetic stays inside the machine-integer range (an index past MaxInt64 cannot be reached by appending)
+//@ pred dlOK(dl *dataList) := dl != nil && dl.first >= 0 && nextIdx(dl) < 9223372036854775807 && dl.size == sumLens(dl.data)
+
+// appendData: the payload gets index next; everything retained keeps its index; size grows by len(d).
+//@ func (*dataList).appendData [C20]
+//@   nopanic
+//@   requires dlOK(dl) && dl.size + len(d) <= 9223372036854775807 && nextIdx(dl) + 1 < 9223372036854775807
+//@   modifies dl.data, dl.size, elems(dl.data)
+//@   ensures @appended-at-next nextIdx(dl) == old(nextIdx(dl)) + 1 && dl.first == old(dl.first) && item(dl, old(nextIdx(dl))) == d
+//@   ensures @others-keep-index forall k int :: old(holds(dl, k)) ==> item(dl, k) == old(item(dl, k))
+//@   ensures @size dl.size == old(dl.size) + len(d)
+//@   ensures @ok dlOK(dl)
+
+// removeFirst: evicts exactly the oldest retained payload; panics only on an empty list.
+//@ func (*dataList).removeFirst [C20]
+//@   nopanic
+//@   requires dlOK(dl) && len(dl.data) > 0
+//@   modifies dl.data, dl.size, dl.first, elems(dl.data)
+//@   ensures @oldest-evicted dl.first == old(dl.first) + 1 && nextIdx(dl) == old(nextIdx(dl))
+//@   ensures @others-keep-index forall k int :: holds(dl, k) ==> old(holds(dl, k)) && item(dl, k) == old(item(dl, k))
+//@   ensures @size result == len(old(item(dl, dl.first))) && dl.size == old(dl.size) - result
+//@   ensures @ok dlOK(dl)
